@@ -2,10 +2,12 @@
 
 use crate::util::Ctx;
 
+pub mod c06;
 pub mod c19;
 
 pub fn dispatch(ctx: &mut Ctx) -> bool {
 	match ctx.id.as_str() {
+		"C06" => c06::run(ctx),
 		"C19" => c19::run(ctx),
 		_ => return false,
 	}
@@ -17,6 +19,7 @@ pub fn dispatch(ctx: &mut Ctx) -> bool {
 pub fn confirm(key: &str) -> Option<Option<String>> {
 	let prop = key.split('.').next().unwrap_or("");
 	match prop {
+		"C06" => c06::confirm(key),
 		"C19" => c19::confirm(key),
 		_ => None,
 	}
